@@ -55,7 +55,7 @@ Record config := mkCfg {
   cresolve : bool;         (* ResolveIPAddr succeeds on the host names a server may send *)
   cmclisten : bool;        (* the multicast listeners can be opened *)
   (* Code variant. All on ([cfg_now]) = the code that exists in /repo: each flag is one "fix:" commit there
-     (ddd2501, 09a799a, de76fe4, dea4e7d, f303bfa, d468819). [run] (the correspondence) uses [cfg_now]. All off
+     (ddd2501+7724497, 09a799a, de76fe4, dea4e7d, f303bfa, d468819). [run] (the correspondence) uses [cfg_now]. All off
      ([cfg_old]) = the code before those commits; it is kept so that the old defects stay stated as
      regression lemmas (Proofs.v section 4) at no cost. *)
   xf10 : bool;             (* doSetup refuses a nil media URL just before the SETUP request *)
@@ -436,8 +436,8 @@ Fixpoint do_setup (fuel : nat) (cfg : config) (m : media) (w : W) : W * R unit :
     | _ =>
     let urlnil := match mctl m with CtlNil => true | _ => false end in
     if mback m && negb (cback cfg) then (w0, Err eBackChannel) else
+    if urlnil && xf10 cfg then (w0, Err eInvalidMediaURL) else      (* if mediaURL == nil (ddd2501, 7724497) *)
     if mpm0 m && (negb (play_side s0) || negb (proto_eqb p PTCP)) then (w0, Err eH264PM0) else
-    if urlnil && xf10 cfg then (w0, Err eInvalidMediaURL) else      (* if mediaURL == nil *)
     match do_ cfg mSetup urlnil false w0 with
     | (w1, Panic) => (w1, Panic)
     | (w1, Err e) => (w1, Err e)
